@@ -15,11 +15,31 @@ DPD = "src/ampform/helicity/align/dpd.py"
 
 SHALLOW_BODY = "    return tuple(getattr(instance, field.name) for field in _get_fields(instance))"
 
+SYM = "src/ampform/sympy/__init__.py"
 KM = "src/ampform/dynamics/kmatrix.py"
 FF = "src/ampform/dynamics/form_factor.py"
 BLD = "src/ampform/dynamics/builder.py"
 
 CATALOG: dict[str, list[Mutant]] = {
+    "C16": [
+        M("C16", "unverified-again", SYM, "    if stored_key != key_expr:\n        return None\n", "", must_mention="R-VERIFY"),
+        M("C16", "verify-inverted", SYM, "    if stored_key != key_expr:\n        return None\n", "    if stored_key == key_expr:\n        return None\n", must_mention="R-VERIFY"),
+        M("C16", "verify-against-hash-only", SYM, "    if stored_key != key_expr:\n        return None\n", "    if str(stored_key) != str(filename):\n        return None\n", must_mention="R-VERIFY"),
+        M("C16", "no-try-again", SYM, "    try:\n        with open(filename, \"rb\") as f:\n            cached = pickle.load(f)  # noqa: S301\n    except Exception:  # noqa: BLE001\n        return None\n", "    with open(filename, \"rb\") as f:\n        cached = pickle.load(f)  # noqa: S301\n", must_mention="R-TOLERATE"),
+        M("C16", "narrow-handler", SYM, "    except Exception:  # noqa: BLE001\n        return None\n", "    except FileNotFoundError:\n        return None\n", must_mention="R-TOLERATE"),
+        M("C16", "handler-only-unpickling", SYM, "    except Exception:  # noqa: BLE001\n        return None\n", "    except (OSError, pickle.UnpicklingError):\n        return None\n", must_mention="R-TOLERATE"),
+        M("C16", "handler-reraises", SYM, "    except Exception:  # noqa: BLE001\n        return None\n", "    except Exception as exc:  # noqa: BLE001\n        msg = f\"corrupt cache file {filename}\"\n        raise RuntimeError(msg) from exc\n", must_mention="R-TOLERATE"),
+        M("C16", "failed-load-returned-as-result", SYM, "    cached_expr = _load_cached_expression(filename, unevaluated_expr)\n    if cached_expr is not None:\n        return cached_expr\n", "    if filename.exists():\n        return _load_cached_expression(filename, unevaluated_expr)\n", must_mention="R-VERIFY"),
+        M("C16", "write-in-place-again", SYM, "    fd, tmp_name = tempfile.mkstemp(dir=filename.parent, suffix=\".tmp\")\n    try:\n        with os.fdopen(fd, \"wb\") as f:\n            pickle.dump((key_expr, unfolded_expr), f)\n        os.replace(tmp_name, filename)\n    except BaseException:\n        Path(tmp_name).unlink(missing_ok=True)\n        raise\n", "    with open(filename, \"wb\") as f:\n        pickle.dump((key_expr, unfolded_expr), f)\n", must_mention="R-PUBLISH"),
+        M("C16", "write-bytes-in-place", SYM, "    fd, tmp_name = tempfile.mkstemp(dir=filename.parent, suffix=\".tmp\")\n    try:\n        with os.fdopen(fd, \"wb\") as f:\n            pickle.dump((key_expr, unfolded_expr), f)\n        os.replace(tmp_name, filename)\n    except BaseException:\n        Path(tmp_name).unlink(missing_ok=True)\n        raise\n", "    filename.write_bytes(pickle.dumps((key_expr, unfolded_expr)))\n", must_mention="R-PUBLISH"),
+        M("C16", "shared-temporary-name", SYM, "    fd, tmp_name = tempfile.mkstemp(dir=filename.parent, suffix=\".tmp\")\n    try:\n        with os.fdopen(fd, \"wb\") as f:", "    tmp_name = str(filename) + \".tmp\"\n    try:\n        with open(tmp_name, \"wb\") as f:", must_mention="R-PUBLISH"),
+        M("C16", "rename-before-close", SYM, "            pickle.dump((key_expr, unfolded_expr), f)\n        os.replace(tmp_name, filename)\n", "            pickle.dump((key_expr, unfolded_expr), f)\n            os.replace(tmp_name, filename)\n", must_mention="R-PUBLISH"),
+        M("C16", "hash-depends-on-id", "src/ampform/sympy/_cache.py", "        b = _to_bytes(obj)\n", "        b = _to_bytes(obj) + str(id(obj)).encode()\n", must_mention="R-HASHKEY"),
+        M("C16", "neutral-inline-shape", SYM, "    cached_expr = _load_cached_expression(filename, unevaluated_expr)\n    if cached_expr is not None:\n        return cached_expr\n", "    try:\n        with open(filename, \"rb\") as stream:\n            stored = pickle.load(stream)\n        if isinstance(stored, tuple) and len(stored) == 2 and stored[0] == unevaluated_expr:\n            return stored[1]\n    except Exception:\n        pass\n", expect="silent"),
+        M("C16", "neutral-eq-form", SYM, "    if stored_key != key_expr:\n        return None\n    return stored_expr\n", "    if key_expr == stored_key:\n        return stored_expr\n    return None\n", expect="silent"),
+        M("C16", "neutral-named-tempfile", SYM, "    fd, tmp_name = tempfile.mkstemp(dir=filename.parent, suffix=\".tmp\")\n    try:\n        with os.fdopen(fd, \"wb\") as f:\n            pickle.dump((key_expr, unfolded_expr), f)\n        os.replace(tmp_name, filename)\n", "    tmp = tempfile.NamedTemporaryFile(dir=filename.parent, suffix=\".tmp\", delete=False)\n    tmp_name = tmp.name\n    try:\n        with tmp as f:\n            pickle.dump((key_expr, unfolded_expr), f)\n        Path(tmp_name).replace(filename)\n", expect="silent"),
+        M("C16", "neutral-no-cache-write", SYM, "    _dump_cached_expression(filename, unevaluated_expr, unfolded_expr)\n", "", expect="silent"),
+    ],
     "C09": [
         M("C09", "t-plus-i", KM, "        t_matrix = k_matrix * (sp.eye(n_channels) - sp.I * k_matrix).inv()", "        t_matrix = k_matrix * (sp.eye(n_channels) + sp.I * k_matrix).inv()", must_mention="NonRelativisticKMatrix._create_matrices"),
         M("C09", "t-no-inverse", KM, "        t_matrix = k_matrix * (sp.eye(n_channels) - sp.I * k_matrix).inv()", "        t_matrix = k_matrix * (sp.eye(n_channels) - sp.I * k_matrix)", must_mention="NonRelativisticKMatrix._create_matrices"),
